@@ -423,26 +423,39 @@ def Rules.pinned : Rules := ⟨false, false, false⟩
 /-- `account.ValidateVersion` -/
 def validateVersion (v : Nat) : Bool := Pool.Gen.validAccountVersions.contains v
 
+/-- "Update account expiry if needed": `batch.Version.SupportsAccountExtension() && diff.NewExpiry != 0` -/
+def extendsExpiry (b : Batch) (d : Diff) : Bool := supportsAccountExtension b.version && d.newExpiry != 0
+
+/-- "Update account version if needed": `batch.Version.SupportsAccountTaprootUpgrade() && diff.NewVersion > acct.Version` -/
+def upgradesVersion (b : Batch) (a : Acct) (d : Diff) : Bool :=
+  supportsAccountTaprootUpgrade b.version && decide (d.newVersion > a.version)
+
+def newExpiryOf (b : Batch) (a : Acct) (d : Diff) : Nat := if extendsExpiry b d then d.newExpiry else a.expiry
+def newVersionOf (b : Batch) (a : Acct) (d : Diff) : Nat := if upgradesVersion b a d then d.newVersion else a.version
+
+/-- the `*account.Account` after both updates, as handed to `validateEndingState` -/
+def acctAfter (b : Batch) (a : Acct) (d : Diff) : Acct :=
+  { a with expiry := newExpiryOf b a d, version := newVersionOf b a d }
+
 /-- one iteration of `for _, diff := range batch.AccountDiffs`; `seen` = keys of the diffs processed so far -/
 def verifyDiff (env : Env) (rules : Rules) (b : Batch) (best : UInt32) (st : Tallies) (seen : List Key) (d : Diff) :
     Except Err Tallies :=
   match findEntry d.acctKey st with
   | none => .error .diffUninvolved
   | some e =>
-    if rules.rejectDuplicateDiffs && seen.contains d.acctKey then .error .diffDuplicate else
-    -- tally.ChainFees(batch.BatchTxFeeRate, acct.Version)
-    let bal := w64 (e.bal - estimateTraderFee e.chans b.feeRate e.acct.version)
-    if d.endingBalance != bal then .error .diffBalance else
-    let ext := supportsAccountExtension b.version && d.newExpiry != 0
+    if rules.rejectDuplicateDiffs && seen.contains d.acctKey then .error .diffDuplicate
+    -- tally.ChainFees(batch.BatchTxFeeRate, acct.Version); compare with the server's number
+    else if d.endingBalance != w64 (e.bal - estimateTraderFee e.chans b.feeRate e.acct.version) then .error .diffBalance
     -- uint64(diff.NewExpiry) > uint64(bestHeight) + uint64(account.MaxAccountExpiry)
-    if rules.boundNewExpiry && ext && d.newExpiry > best.toNat + Pool.Gen.maxAccountExpiry then .error .diffNewExpiry else
-    let acct := if ext then { e.acct with expiry := d.newExpiry } else e.acct
-    let upg := supportsAccountTaprootUpgrade b.version && d.newVersion > acct.version
-    if rules.validateNewVersion && upg && !validateVersion d.newVersion then .error .diffNewVersion else
-    let acct := if upg then { acct with version := d.newVersion } else acct
-    match validateEndingState env b.txOuts acct d with
-    | .error err => .error err
-    | .ok () => .ok (setEntry { e with bal := bal, acct := acct } st)
+    else if rules.boundNewExpiry && extendsExpiry b d &&
+        decide (d.newExpiry > best.toNat + Pool.Gen.maxAccountExpiry) then .error .diffNewExpiry
+    else if rules.validateNewVersion && upgradesVersion b e.acct d && !validateVersion d.newVersion then
+      .error .diffNewVersion
+    else match validateEndingState env b.txOuts (acctAfter b e.acct d) d with
+      | .error err => .error err
+      | .ok () => .ok (setEntry { e with
+          bal := w64 (e.bal - estimateTraderFee e.chans b.feeRate e.acct.version),
+          acct := acctAfter b e.acct d } st)
 
 def verifyDiffs (env : Env) (rules : Rules) (b : Batch) (best : UInt32) :
     Tallies → List Key → List Diff → Except Err Tallies
